@@ -262,7 +262,9 @@ def build(active_known=frozenset()):
             stack = z3.Select(st.lists, V.Val.a(fld(st, a.ctx, "_gensym_env")))
             m, d = lib.dict_content(st, V.Val.a(env))
             name = fld(st, a.form, "_name")
+            outermost = stack[0]  # (type invariant of the stack: every environment on it is a dict; stated for the two ends, which is what code can name)
             return z3.And(z3.Not(UNQ(a.form)), z3.Not(UNQS(a.form)), z3.Length(stack) >= 1, has_class(a.eng, env, dict), V.Val.a(env) <= 0,
+                          has_class(a.eng, outermost, dict), V.Val.a(outermost) <= 0,
                           V.is_none(fld(st, a.form, "_ns")), z3.SuffixOf(z3.StringVal("#"), V.Val.s(name)), z3.Select(d, lib.key_norm(name)) == z3.BoolVal(present))
 
         c.requires("the form is an unqualified symbol whose name ends in #, and the template has a gensym environment", pre)
@@ -701,6 +703,13 @@ def chk(desc, ok):
         bad.append(desc)
 def parts(form):
     return list(form)
+def _flatten(form):
+    if isinstance(form, (str, bytes)) or not hasattr(form, "__iter__"):
+        return [form]
+    out = []
+    for x in form:
+        out.extend(_flatten(x))
+    return out
 try:
     f = first("`(a# a# b#)")      # (seq (concat (list 'a__1) (list 'a__1) (list 'b__2)))
     chk("list template is (seq (concat ...))", parts(f)[0] == S("seq", CORE) and parts(parts(f)[1])[0] == S("concat", CORE))
@@ -710,6 +719,12 @@ try:
     chk("b# is another symbol", syms[2] != syms[0])
     g = first("`(a#)")
     chk("a# is fresh across templates", parts(parts(parts(parts(g)[1])[1])[1])[1] != syms[0])
+    n = first("`(x# ~`x#)")       # a template nested through an unquote has its own gensym environment
+    nested_syms = [s_ for s_ in _flatten(n) if isinstance(s_, sym.Symbol) and s_.name.startswith("x_")]
+    chk("x# of a nested template is not the enclosing template's x#", len(set(nested_syms)) == 2)
+    sib = first("`(~`a# ~`a#)")
+    sib_syms = [s_ for s_ in _flatten(sib) if isinstance(s_, sym.Symbol) and s_.name.startswith("a_")]
+    chk("sibling nested templates have different gensyms", len(set(sib_syms)) == 2)
     v = first("`[1 ~x ~@ys]")
     chk("vector template is (apply vector (concat ...))", parts(v)[:2] == [S("apply", CORE), S("vector", CORE)])
     vents = parts(parts(v)[2])[1:]
